@@ -93,6 +93,14 @@ partial def loop (h : IO.FS.Stream) (d : DS) : IO Unit := do
       | none => d.cb
     let s := cbSettle d.holdExec 8 s
     IO.println (cbLine s); loop h { d with cb := s }
+  | .cb, ["O", "cbpanic"] =>
+    -- the held handler panics into the per-job recover wrapper (ExecQ: `finish d true`, then the hand-over step)
+    let s := match heldCb d.cb with
+      | some j => if j == WsCb.jobOpen || j == WsCb.jobClose then WsCb.run d.cb [.q (.finish 0 false), .q (.next 0 false)]
+                  else WsCb.run d.cb [.q (.finish 0 true), .q (.next 0 false)]
+      | none => d.cb
+    let s := cbSettle d.holdExec 8 s
+    IO.println (cbLine s); loop h { d with cb := s }
   | .cb, ["Q"] => IO.println (cbLine d.cb); loop h d
   | .wq, "O" :: "write" :: len :: rest =>
     -- `frags=` (compressed messages): the fragment count is the implementation's (queued frames of an accepted call,
